@@ -1051,3 +1051,44 @@ Proof.
   unfold col_means. rewrite (nthq_map (fun s => s / qn nrow)) by (rewrite col_sums_length; exact Hj).
   unfold col_sums. rewrite nthq_seq_map by exact Hj. reflexivity.
 Qed.
+
+(* ------------------------------------------------------------------------------------------- *)
+(** * Refutations (faithful model of the current code) *)
+(** GSVD.predict divides by sigma^fs: with a zero singular value among the returned ones (n_components
+    above the rank) and factor_singular = 1, every hypothesis of [gsvd_predict_reproduces_fit_full]
+    except [sigma^fs <> 0] holds and predict does not return the fitted row.
+    Witness: A = [[3,0,0],[4,0,0],[0,0,0]], sigma = (5, 0), u2 = (4/5, -3/5, 0), row 0. *)
+Lemma gsvd_predict_zero_singular_refuted :
+  exists (A sU sV : mat) (sS : vec) (index : list nat) (psl psr : Q -> Q),
+    let one := fun _ : Q => 1 in
+    wf_mat 3 3 A /\ length sU = 3%nat /\
+    (forall k, (k < length index)%nat -> let j := nth k index 0%nat in
+       slr_matvec (gsvd_operator one one 3 3 A 0) (col j sV) =v vscale (nthq sS j) (col j sU) /\
+       psl (nthq sS j) * psr (nthq sS j) == nthq sS j) /\
+    ~ (gsvd_predict_row one one psr (fun q => q) false 3 0 (snd (gsvd_weights 3 3 A 0))
+                        (gsvd_sv sS index) (take_cols index sV) (nth 0 A [])
+       =v nth 0 (gsvd_emb_row one psl 3 3 A 0 sU sS index) []).
+Proof.
+  exists [[3; 0; 0]; [4; 0; 0]; [0; 0; 0]], [[3 # 5; 4 # 5]; [4 # 5; -(3 # 5)]; [0; 0]],
+         [[1; 0]; [0; 1]; [0; 0]], [5; 0], [0%nat; 1%nat], (fun _ => 1), (fun q => q).
+  cbv zeta. split; [split; [reflexivity | repeat constructor]|]. split; [reflexivity|]. split.
+  - intros k Hk. do 2 (destruct k as [|k]; [vm_compute; split; [repeat (constructor; try reflexivity) | reflexivity]|]).
+    cbn in Hk. lia.
+  - intros H. vm_compute in H. inversion H as [|? ? ? ? _ H2]; subst. inversion H2 as [|? ? ? ? H3 _]; subst.
+    vm_compute in H3. discriminate.
+Qed.
+
+(** PCA(normalized=True): fit returns the left singular vectors untouched. *)
+Lemma pca_normalized_refuted :
+  exists (sU : mat) (sS : vec) (sV : mat) (i : nat),
+    let '(emb_row, _, _) := pca_fit true sU sS sV in
+    ~ Forall (fun x => x == 0) (nth i emb_row []) /\ ~ sqnorm (nth i emb_row []) == 1.
+Proof.
+  exists [[3 # 5]; [4 # 5]], [1], [[1]], 0%nat. cbn. split.
+  - intros H. inversion H as [|? ? H1 _]; subst. vm_compute in H1. discriminate.
+  - intros H. vm_compute in H. discriminate.
+Qed.
+
+(** PCA.predict after PCA.fit (weights_col_ is None) fails for every adjacency vector. *)
+Lemma pca_predict_refuted x : pca_predict_row None x = inr TypeError.
+Proof. reflexivity. Qed.
